@@ -296,4 +296,5 @@ def units(tier, seed):
     return out
 
 
-FINDING_REPLAYS = {}
+from checks import c11_more as _m
+FINDING_REPLAYS = {'KF-C11-negative-ssh-mpint': _m.w_negative_mpint}
